@@ -8,6 +8,11 @@
 
 using namespace vp;
 using namespace vpgen;
+
+// the tag attribute counts by its presence: its value may be anything, also empty (`setfattr -n name dir`)
+static std::string tagValue() {
+  return P(35) ? std::string() : std::string("1");
+}
 using namespace vpe;
 
 static const char* kTag = "user.vp_tag";
@@ -46,7 +51,7 @@ static Json::Value gen() {
     tagged[c] = P(60);
     if (exists[c]) {
       Cg cg = plainCg(c);
-      if (tagged[c]) cg.xattrs[kTag] = "1";
+      if (tagged[c]) cg.xattrs[kTag] = tagValue();
       w.cgs.push_back(cg);
     }
   }
@@ -122,7 +127,7 @@ static Json::Value gen() {
           op.op = "mk";
           op.cg = plainCg(c);
           tagged[c] = P(60);
-          if (tagged[c]) op.cg.xattrs[kTag] = "1";
+          if (tagged[c]) op.cg.xattrs[kTag] = tagValue();
           ops.append(op.toJson());
           exists[c] = true;
         } else if (k == 3 && exists[c] && filter) {
@@ -130,7 +135,7 @@ static Json::Value gen() {
           op.op = "set";
           op.cg = plainCg(c);
           tagged[c] = !tagged[c];
-          if (tagged[c]) op.cg.xattrs[kTag] = "1";
+          if (tagged[c]) op.cg.xattrs[kTag] = tagValue();
           ops.append(op.toJson());
         }
       }
